@@ -1,0 +1,64 @@
+//! Verification hooks (compiled only with `--cfg ckb_verif`): a process-wide counter of
+//! durable writes (transaction commits and batch writes) with optional crash injection.
+//!
+//! * `VERIF_CRASH_AT=<n>:before|after` — abort the process at the n-th durable write
+//!   (1-based), before or after it is handed to RocksDB.
+//! * `VERIF_COMMIT_LOG=<path>` — append one line `<n> <kind>` per durable write.
+use std::io::Write;
+use std::sync::OnceLock;
+use std::sync::atomic::{AtomicU64, Ordering};
+
+static COUNTER: AtomicU64 = AtomicU64::new(0);
+
+struct Plan {
+    crash_at: Option<(u64, bool)>,
+    log: Option<std::sync::Mutex<std::fs::File>>,
+}
+
+static PLAN: OnceLock<Plan> = OnceLock::new();
+
+fn plan() -> &'static Plan {
+    PLAN.get_or_init(|| {
+        let crash_at = std::env::var("VERIF_CRASH_AT").ok().and_then(|v| {
+            let (n, side) = v.split_once(':')?;
+            Some((n.parse().ok()?, side == "before"))
+        });
+        let log = std::env::var("VERIF_COMMIT_LOG").ok().and_then(|p| {
+            std::fs::OpenOptions::new()
+                .create(true)
+                .append(true)
+                .open(p)
+                .ok()
+                .map(std::sync::Mutex::new)
+        });
+        Plan { crash_at, log }
+    })
+}
+
+/// Number of durable writes performed so far by this process.
+pub fn commit_count() -> u64 {
+    COUNTER.load(Ordering::SeqCst)
+}
+
+/// Called immediately before a durable write; returns its sequence number.
+pub fn before_write(kind: &str) -> u64 {
+    let n = COUNTER.fetch_add(1, Ordering::SeqCst) + 1;
+    let plan = plan();
+    if let Some(log) = &plan.log {
+        if let Ok(mut f) = log.lock() {
+            let _ = writeln!(f, "{n} {kind}");
+            let _ = f.flush();
+        }
+    }
+    if plan.crash_at == Some((n, true)) {
+        std::process::abort();
+    }
+    n
+}
+
+/// Called immediately after a durable write returned.
+pub fn after_write(n: u64) {
+    if plan().crash_at == Some((n, false)) {
+        std::process::abort();
+    }
+}
